@@ -9,7 +9,9 @@ package main
 //	rpc <id> <shard> <prefix> <step>;...
 //	    Q:<d1>+<d2>..   sequence put on the prefix through WriteBlock            -> <generated key> | <STATUS> | err
 //	    X:<i>           delete the i-th live generated key (0 = highest) through WriteBlock -> <key> | -
-//	    T               attach a subscriber (GetSequenceUpdates RPC)             -> ok
+//	    T[:<prefix>]    attach a subscriber (GetSequenceUpdates RPC) on the prefix of the case / on another one -> ok
+//	    K:<n>           the n-th subscriber goes away (its stream context is cancelled; the RPC returns)  -> ok
+//	    QP:<prefix>:<deltas>  sequence put on another prefix                    -> <generated key> | <STATUS> | err
 //	    O:<key>         a plain put of <key> elsewhere                           -> ok
 //	  after T and after every Q (subscriber attached) the harness waits until the last key the stream received is the
 //	  key that has to be observed (bounded wait, generous margin: it arrives within microseconds on the unchanged tree)
@@ -17,6 +19,8 @@ package main
 //	  seq:subscriber-did-not-observe-latest-key    the latest generated key (after T: the highest key of the prefix) did not
 //	                                               become the stream's last value
 //	  seq:subscriber-saw-key-never-generated       the stream received a key that no sequence put of the case generated
+//	  seq:closed-subscriber-received-update        a stream whose RPC had returned received something afterwards
+//	only the LIVE subscribers of the prefix are waited for; subscribers come and go in any order (several per prefix)
 
 import (
 	"context"
@@ -51,10 +55,13 @@ func init() {
 const c16RpcWait = 3 * time.Second
 
 type seqStream struct {
-	ctx    context.Context
-	mu     sync.Mutex
-	got    []string
-	notify chan struct{}
+	ctx     context.Context
+	prefix  string
+	mu      sync.Mutex
+	got     []string
+	notify  chan struct{}
+	closed  bool
+	atClose int
 }
 
 func (*seqStream) SetHeader(metadata.MD) error  { return nil }
@@ -114,7 +121,7 @@ func (r *rpcEnv) highest() string {
 }
 
 // expect waits until the last value of every attached stream from index `from` on is `key`
-func (r *rpcEnv) expect(from int, key string, why string) {
+func (r *rpcEnv) expect(from int, prefix string, key string, why string) {
 	if key == "" || r.failed {
 		return // (after a first miss the rest of the case is not waited for)
 	}
@@ -124,7 +131,13 @@ func (r *rpcEnv) expect(from int, key string, why string) {
 	}
 	ctxt := fmt.Sprintf("%s prefix %s steps [%s]", r.l.tag, hexs(r.prefix), strings.Join(r.l.ops, ";"))
 	for i, s := range r.streams {
-		if i < from {
+		if s.closed {
+			if _, n := s.last(); n != s.atClose {
+				r.l.o.Violation("seq:closed-subscriber-received-update", fmt.Sprintf("%s: subscriber #%d had left with %d values, it now has %d", ctxt, i, s.atClose, n))
+			}
+			continue
+		}
+		if i < from || s.prefix != prefix {
 			continue
 		}
 		deadline := time.After(wait)
@@ -164,9 +177,13 @@ func (r *rpcEnv) do(step string) string {
 	res := "ok"
 	r.ts++
 	switch f[0] {
-	case "Q":
+	case "Q", "QP":
 		p := putOp{key: r.prefix, value: []byte("v"), part: pstr("pk")}
-		for _, d := range strings.Split(f[1], "+") {
+		dtxt := f[1]
+		if f[0] == "QP" {
+			p.key, dtxt = unhexs(f[1]), f[2]
+		}
+		for _, d := range strings.Split(dtxt, "+") {
 			v, err := strconv.ParseUint(d, 10, 64)
 			hx.Must(err)
 			p.deltas = append(p.deltas, v)
@@ -179,14 +196,16 @@ func (r *rpcEnv) do(step string) string {
 			k := *resp.Puts[0].Key
 			res = hexs(k)
 			r.generated[k] = true
-			r.live = append(r.live, k)
+			if p.key == r.prefix {
+				r.live = append(r.live, k)
+			}
 		default:
 			res = resp.Puts[0].Status.String()
 		}
 		r.l.ops = append(r.l.ops, step)
 		r.l.res = append(r.l.res, res)
 		if resp != nil && err == nil && resp.Puts[0].Key != nil {
-			r.expect(0, *resp.Puts[0].Key, "the key generated by the last sequence put")
+			r.expect(0, p.key, *resp.Puts[0].Key, "the key generated by the last sequence put")
 		}
 		return res
 	case "X":
@@ -206,17 +225,36 @@ func (r *rpcEnv) do(step string) string {
 	case "O":
 		_, err := r.write(&wreq{ts: r.ts, puts: []putOp{{key: unhexs(f[1]), value: []byte("x")}}})
 		hx.Must(err)
+	case "K":
+		n, err := strconv.Atoi(f[1])
+		hx.Must(err)
+		if n < len(r.streams) && !r.streams[n].closed {
+			r.cancels[n]()
+			select {
+			case <-r.dones[n]:
+			case <-time.After(c16RpcWait):
+				r.l.o.Violation("seq:subscriber-rpc-does-not-return", fmt.Sprintf("%s: GetSequenceUpdates of subscriber #%d did not return after its context was cancelled", r.l.tag, n))
+			}
+			_, r.streams[n].atClose = r.streams[n].last()
+			r.streams[n].closed = true
+		}
 	case "T":
+		prefix := r.prefix
+		if len(f) > 1 {
+			prefix = unhexs(f[1])
+		}
 		ctx, cancel := context.WithCancel(context.Background())
-		s := &seqStream{ctx: ctx, notify: make(chan struct{}, 1)}
+		s := &seqStream{ctx: ctx, prefix: prefix, notify: make(chan struct{}, 1)}
 		done := make(chan error, 1)
 		go func() {
-			done <- server.VerifPublicGetSequenceUpdates(r.l.lc, &proto.GetSequenceUpdatesRequest{Shard: r.l.shard, Key: r.prefix}, s)
+			done <- server.VerifPublicGetSequenceUpdates(r.l.lc, &proto.GetSequenceUpdatesRequest{Shard: r.l.shard, Key: prefix}, s)
 		}()
 		r.streams, r.cancels, r.dones = append(r.streams, s), append(r.cancels, cancel), append(r.dones, done)
 		r.l.ops = append(r.l.ops, step)
 		r.l.res = append(r.l.res, res)
-		r.expect(len(r.streams)-1, r.highest(), "the highest key of the prefix at subscription time")
+		if prefix == r.prefix {
+			r.expect(len(r.streams)-1, prefix, r.highest(), "the highest key of the prefix at subscription time")
+		}
 		return res
 	default:
 		panic("rpc: unknown step " + step)
@@ -227,13 +265,18 @@ func (r *rpcEnv) do(step string) string {
 }
 
 func c16RpcCase(o *hx.Out, shard int64, prefix string, tag string, ntKey string, body func(r *rpcEnv)) {
+	leaderEnvInMemory = true
 	l := newLeaderEnv(o, shard, tag)
+	leaderEnvInMemory = false
 	defer l.close()
 	hx.Must(l.start(1))
 	r := &rpcEnv{l: l, prefix: prefix, generated: map[string]bool{}, ts: 1000}
 	body(r)
 	for i, c := range r.cancels {
 		c()
+		if r.streams[i].closed {
+			continue
+		}
 		select {
 		case <-r.dones[i]:
 		case <-time.After(c16RpcWait):
@@ -257,14 +300,48 @@ func c16RpcMain(o *hx.Out, f hx.Flags) {
 				}
 				return "Q:" + strings.Join(ds, "+")
 			}
+			other := hx.Pick(crng, c16Prefixes)
+			if other == prefix {
+				other = prefix + "2"
+			}
+			openSubs := func() []int {
+				var xs []int
+				for i, s := range r.streams {
+					if !s.closed {
+						xs = append(xs, i)
+					}
+				}
+				return xs
+			}
+			if crng.Chance(30) { // A and B subscribe, A leaves, C subscribes, puts, B leaves, puts
+				r.do("T")
+				r.do("T")
+				r.do("K:0")
+				r.do("T")
+				r.do(q())
+				r.do(q())
+				r.do("K:1")
+				r.do(q())
+				o.Count("c16rpc:scripted-leave-and-join")
+			}
 			attachAt := crng.Intn(8) // the subscriber comes before, in the middle of, or after the first writes
 			steps := 8 + crng.Intn(12)
 			for i := 0; i < steps; i++ {
-				if i == attachAt || (i > attachAt && crng.Chance(4)) {
-					r.do("T")
+				if i == attachAt || (i > attachAt && crng.Chance(12)) {
+					if crng.Chance(20) {
+						r.do("T:" + hexs(other))
+					} else {
+						r.do("T")
+					}
 					o.Count("c16rpc:subscribe")
 				}
+				if os := openSubs(); len(os) > 0 && crng.Chance(12) {
+					r.do(fmt.Sprintf("K:%d", hx.Pick(crng, os)))
+					o.Count("c16rpc:subscriber-leaves")
+				}
 				switch x := crng.Intn(100); {
+				case x < 8:
+					r.do("QP:" + hexs(other) + ":" + strconv.Itoa(1+crng.Intn(3)))
 				case x < 55:
 					r.do(q())
 					o.Count("c16rpc:sequence-put")
@@ -279,7 +356,7 @@ func c16RpcMain(o *hx.Out, f hx.Flags) {
 					r.do("O:" + hexs(hx.Pick(crng, []string{"a", "other", "zz/y"})))
 				}
 			}
-			if len(r.streams) == 0 {
+			if len(openSubs()) == 0 {
 				r.do("T")
 			}
 			r.do(q())
